@@ -68,11 +68,21 @@ def blocks (items : List Item) : List Item × List Item × List Item :=
   let c := splitBlank b.2
   (a.1, b.1, c.1)
 
-def cellCards (items : List Item) : List (Nat × List Param) :=
-  (blocks items).1.filterMap (fun | .cell n ps => some (n, ps) | _ => none)
+def Item.cell? : Item → Option (Nat × List Param)
+  | .cell n ps => some (n, ps)
+  | _ => none
 
+def Item.card? : Item → Option DataCard
+  | .data c => some c
+  | _ => none
+
+/-- the cell cards MCNP reads: those of the first block -/
+def cellCards (items : List Item) : List (Nat × List Param) :=
+  (blocks items).1.filterMap Item.cell?
+
+/-- the cell-parameter data cards MCNP reads: those of the third block -/
 def dataCards (items : List Item) : List DataCard :=
-  (blocks items).2.2.filterMap (fun | .data c => some c | _ => none)
+  (blocks items).2.2.filterMap Item.card?
 
 /-- does an entry with key `k'` and designators `ps` give datum `(k, p)`? -/
 def applies (k' : K) (ps : List P) (k : K) (p : P) : Bool :=
@@ -100,6 +110,6 @@ def fits (items : List Item) : Bool :=
 
 /-- every cell-parameter card that the file contains is inside the data block proper -/
 def allDataCardsRead (items : List Item) : Bool :=
-  (items.filterMap (fun | .data c => some c | _ => none)) == dataCards items
+  items.filterMap Item.card? == dataCards items
 
 end MontePyVerif.Spec.CellData
